@@ -13,6 +13,7 @@
 #include "galois/runtime/SyncStructures.h"
 
 #include <fstream>
+#include <map>
 #include <set>
 #include <sstream>
 
@@ -252,29 +253,40 @@ int main(int argc, char** argv) {
     if ((int)vreduce == 1 && r > 0)
       for (uint32_t l = 0; l < graph.size(); ++l)
         graph.getData(l).val = 0;
+    // the writes of this round, grouped by proxy; the proxies are written concurrently by the
+    // host's threads (as an operator would), the writes to one proxy in their generated order
+    std::map<uint32_t, std::vector<uint32_t>> by_proxy;
     for (auto& w : writes) {
       if ((int)w[0] != r || w[1] != net.ID)
         continue;
       if (!graph.isLocal(w[2]))
         continue; // the driver only plans writes to existing proxies; tolerate anyway
-      uint32_t l = graph.getLID(w[2]);
-      uint32_t v = (uint32_t)w[3];
-      uint32_t& x = graph.getData(l).val;
-      switch ((int)vreduce) {
-      case 0:
-        x = std::min(x, v);
-        break;
-      case 1:
-        x += v;
-        break;
-      case 3:
-        x = std::max(x, v);
-        break;
-      default:
-        x = v;
-      }
-      bitset_val.set(l);
+      by_proxy[graph.getLID(w[2])].push_back((uint32_t)w[3]);
     }
+    std::vector<std::pair<uint32_t, std::vector<uint32_t>>> groups(by_proxy.begin(), by_proxy.end());
+    galois::do_all(
+        galois::iterate((size_t)0, groups.size()),
+        [&](size_t gi) {
+          uint32_t l  = groups[gi].first;
+          uint32_t& x = graph.getData(l).val;
+          for (uint32_t v : groups[gi].second) {
+            switch ((int)vreduce) {
+            case 0:
+              x = std::min(x, v);
+              break;
+            case 1:
+              x += v;
+              break;
+            case 3:
+              x = std::max(x, v);
+              break;
+            default:
+              x = v;
+            }
+            bitset_val.set(l);
+          }
+        },
+        galois::steal(), galois::chunk_size<1>(), galois::no_stats());
     dump_vals(graph, f, "before", r);
     do_sync(vwrite, vread, vreduce, vbitset);
     dump_vals(graph, f, "after", r);
